@@ -171,6 +171,16 @@ const (
 
 var regionName = "/8.6" // /region
 
+// opsLog receives every operation BEFORE it is executed (unbuffered), so that a crash of the implementation leaves the history
+// that caused it on disk: <VERIF_OUT>.ops
+var opsLog *os.File
+
+func logOp(format string, a ...any) {
+	if opsLog != nil {
+		fmt.Fprintf(opsLog, format, a...)
+	}
+}
+
 type world struct {
 	w       *bufio.Writer
 	threads []*fw.Thread
@@ -264,6 +274,7 @@ func opt(s string) bool { return s != "-" }
 
 func (wd *world) exec(line string) {
 	f := strings.Fields(line)
+	logOp("%s\n", line)
 	// every operation happens at a distinct virtual instant
 	time.Sleep(time.Microsecond)
 	wd.log = wd.log[:0]
@@ -1408,6 +1419,7 @@ func prefixClosure(names []string) []string {
 
 func header(wd *world, k int, names []string, nonces []uint32) {
 	wd.pf("case %d\n", k)
+	logOp("case %d\nthreads %d\ndnl %d\nfibm %d\n", k, wd.nthr, wd.dnlMs, wd.fibM)
 	xs := make([]string, len(nonces))
 	for i, x := range nonces {
 		xs[i] = strconv.FormatUint(uint64(x), 10)
@@ -1441,6 +1453,10 @@ func TestTrace(t *testing.T) {
 	defer fo.Close()
 	w := bufio.NewWriterSize(fo, 1<<20)
 	defer w.Flush()
+	if outp != "/dev/stdout" {
+		opsLog, _ = os.Create(outp + ".ops")
+		defer opsLog.Close()
+	}
 	configureOnce()
 	r := rand.New(rand.NewSource(seed))
 	universe := buildUniverse(r)
@@ -1506,6 +1522,7 @@ func TestTrace(t *testing.T) {
 						if i+2 < len(ops) && strings.HasPrefix(normalizeOp(ops[i+1]), "int ") && strings.HasPrefix(normalizeOp(ops[i+2]), "int ") {
 							time.Sleep(time.Microsecond)
 							wd.log, wd.pend, wd.expired = wd.log[:0], wd.pend[:0], wd.expired[:0]
+							logOp("mark frames\n%s\n%s\n", normalizeOp(ops[i+1]), normalizeOp(ops[i+2]))
 							wd.doFrames(normalizeOp(ops[i+1]), normalizeOp(ops[i+2]))
 							i += 2
 						}
